@@ -38,6 +38,84 @@ def discover_helpers(model) -> Dict[str, FuncInfo]:
     return out
 
 
+def constraints_loop_rule(ctx, vc):
+    """validate_constraints: each constraint of the tuple is evaluated exactly once, each failure formatted."""
+    from ..pathcond import parents_of, path_condition
+    fn = vc.node
+    cp = vc.params[1]
+    parents = parents_of(fn)
+    loops = []
+    for n in ast.walk(fn):
+        if isinstance(n, ast.For):
+            it = n.iter
+            if isinstance(it, ast.Name) and it.id == cp:
+                loops.append((n, "direct"))
+            elif isinstance(it, ast.Call) and dotted(it.func) == "range" and it.args and norm(it.args[-1] if len(it.args) <= 2 else it.args[1]) == f"len({cp})":
+                loops.append((n, "range"))
+    ctx.check(bool(loops), "C02.R9", f"{vc.qualname}:loops", fn.body[0], f"no loop over `{cp}` found in validate_constraints", vc, fn)
+
+    def enclosing_loop(node):
+        p = parents.get(node)
+        while p is not None:
+            for l, k in loops:
+                if l is p:
+                    return l, k
+            p = parents.get(p)
+        return None, None
+
+    for l, kind in loops:
+        if kind != "range":
+            continue
+        outer, _ = enclosing_loop(l)
+        args = l.iter.args
+        start = norm(args[0]) if len(args) >= 2 else "0"
+        if outer is None:
+            ctx.check(start == "0" and len(args) <= 2, "C02.R9", f"{vc.qualname}:range:outer", l, f"`{short(l, 60)}` does not start at the first constraint", vc, l, detail="range(len(constraints))")
+        else:
+            ov = norm(outer.target)
+            ctx.check(start in (f"{ov} + 1", f"1 + {ov}") and len(args) == 2, "C02.R9", f"{vc.qualname}:range:inner", l,
+                      f"`{short(l, 60)}`: the continuation loop must resume right after the first failing constraint ({ov} + 1): starting at {start} " + ("re-reports it" if start == ov else "skips constraints"), vc, l, detail=f"range({ov} + 1, len(constraints))")
+            # the outer loop must be left once the continuation loop has run
+            blk = next((b for b in (getattr(parents[l], "body", []), getattr(parents[l], "orelse", [])) if l in b), [])
+            after = blk[blk.index(l) + 1:] if l in blk else []
+            ctx.check(bool(after) and isinstance(after[-1], (ast.Raise, ast.Return, ast.Break)), "C02.R9", f"{vc.qualname}:range:exit", l,
+                      "the outer loop continues after the continuation loop: later constraints are evaluated and reported twice", vc, l, detail="raise after the inner loop")
+    fmt_order = sorted((c for c in ast.walk(fn) if isinstance(c, ast.Call) and dotted(c.func) == "format_error"), key=lambda c: (c.lineno, c.col_offset))
+    for c in ast.walk(fn):
+        if isinstance(c, ast.Call) and isinstance(c.func, ast.Attribute) and c.func.attr == "validate" and isinstance(c.func.value, ast.Name):
+            recv = c.func.value.id
+            l, kind = enclosing_loop(c)
+            construct = f"{vc.qualname}:validate@{'inner' if l is not None and enclosing_loop(l)[0] is not None else 'outer'}"
+            if l is None:
+                ctx.fail("C02.R9", construct, c, "constraint.validate() outside any loop over the constraints", vc.module.relpath, c.lineno)
+                continue
+            if kind == "direct":
+                ok = norm(l.target) == recv
+            else:
+                best = None
+                for a in ast.walk(l):
+                    if isinstance(a, (ast.Assign, ast.AnnAssign)) and a.value is not None:
+                        t = a.targets[0] if isinstance(a, ast.Assign) else a.target
+                        if isinstance(t, ast.Name) and t.id == recv and a.lineno <= c.lineno and enclosing_loop(a)[0] is l:
+                            if best is None or a.lineno > best.lineno:
+                                best = a
+                ok = best is not None and norm(best.value) == f"{cp}[{norm(l.target)}]"
+            ctx.check(ok, "C02.R9", construct, c, f"`{short(c, 50)}`: `{recv}` is not the constraint selected by the enclosing loop (the same constraint is evaluated again, or a stale one)", vc, c, detail=f"{recv} = {cp}[<loop var>]")
+        if isinstance(c, ast.Call) and dotted(c.func) == "format_error":
+            cond = path_condition(fn, c, parents)
+            conj = cond.values if isinstance(cond, ast.BoolOp) else [cond]
+            last = conj[-1]
+            ok = isinstance(last, ast.UnaryOp) and isinstance(last.op, ast.Not) and isinstance(last.operand, ast.Call) and isinstance(last.operand.func, ast.Attribute) and last.operand.func.attr == "validate" \
+                and c.args and norm(c.args[0]) == f"{norm(last.operand.func.value)}.error"
+            ctx.check(ok, "C02.R9", f"{vc.qualname}:format#{fmt_order.index(c)}", c, f"`{short(c, 60)}` is not guarded by the failure of the same constraint (`not <c>.validate(data)`)", vc, c, detail="under `not c.validate(data)`, formats c.error")
+            # the message must land in the raised list
+            st = c
+            while st is not None and not isinstance(st, ast.stmt):
+                st = parents.get(st)
+            lands = isinstance(st, (ast.Assign, ast.AnnAssign)) or (isinstance(st, ast.Expr) and isinstance(st.value, ast.Call) and isinstance(st.value.func, ast.Attribute) and st.value.func.attr in ("append", "extend"))
+            ctx.check(lands, "C02.R9", f"{vc.qualname}:format-kept#{fmt_order.index(c)}", c, "the formatted message is not added to the error list", vc, c, detail="errors = [...] / errors.append(...)")
+
+
 def helper_contract(ctx, fns):
     from ..boolx import BoolEval, Unknown
     from ..pathcond import _leaves, complements, parents_of, path_condition
@@ -234,6 +312,7 @@ def check(ctx):
     ctx.rule("C02.R3", "no path from a pending accumulator to a return / construct() avoiding a raising consumer", floor=10)
     ctx.rule("C02.R4", "set_child_error keys are the loop's own key / index or a `.alias` attribute", floor=14)
     ctx.rule("C02.R5", "no set-ordered sequence reaches error messages", floor=3)
+    ctx.rule("C02.R9", "a raised ValidationError carries the accumulators (`acc or <empty>`); validate_constraints evaluates every constraint once and reports each failing one", floor=8)
 
     for fi in fns:
         fn = fi.node
@@ -346,6 +425,22 @@ def check(ctx):
         # ---------------- R3
         pending_rule(ctx, "C02.R3", fi, accs, cfg)
 
+        # ---------------- R9: what a raised error carries
+        for c in calls:
+            if not (dotted(c.func) or "").endswith("ValidationError"):
+                continue
+            for a in c.args:
+                if not isinstance(a, ast.BoolOp):
+                    continue
+                nm = [v for v in a.values if isinstance(v, ast.Name)]
+                if not nm:
+                    continue
+                first = a.values[0]
+                rest_empty = all((isinstance(v, (ast.List, ast.Dict, ast.Tuple)) and not (getattr(v, "elts", None) or getattr(v, "keys", None))) for v in a.values[1:])
+                ok = isinstance(a.op, ast.Or) and isinstance(first, ast.Name) and rest_empty
+                ctx.check(ok, "C02.R9", f"{fi.qualname}:carry:{norm(nm[0])}", c,
+                          f"`{short(a, 50)}` passed to ValidationError: the accumulated `{nm[0].id}` must be carried as `{nm[0].id} or <empty>`; this form drops it when it is non-empty", fi, c, detail=f"`{norm(a)}`")
+
         # ---------------- R4
         for c in calls:
             if (dotted(c.func) or "").split(".")[-1] != "set_child_error" or len(c.args) < 2:
@@ -408,6 +503,7 @@ def check(ctx):
             ctx.check(p2 in names_in(n), "C02.R3", f"{vc.qualname}:raise", n,
                       "a constraint failure is raised without the pending children errors: sibling violations are hidden", vc, n)
 
+    constraints_loop_rule(ctx, vc)
     # ---------------- R5: set order
     r5(ctx)
     # ---------------- R6
@@ -557,6 +653,14 @@ def mutants(mb):
     mb.add_text("helper-fresh-ignores-item", P, "        return dict(children)", "        return {}", "C02.R8", "update_children_errors:return-fresh")
     mb.add_text("helper-no-return", P, "        errors.update(children)\n        return errors", "        errors.update(children)", "C02.R8", "update_children_errors:total")
     mb.add_text("neg-helper-guard-form", P, "    if errors is None:\n        return {key: error}\n    else:\n        errors[key] = error\n        return errors", "    if errors is not None:\n        errors[key] = error\n        return errors\n    return {key: error}", negative=True)
+    mb.add_text("vc-stale-constraint", P, "                constraint = constraints[j]\n", "", "C02.R9", "validate@inner")
+    mb.add_text("vc-inner-negated", P, "                if not constraint.validate(data):\n                    errors.append(", "                if constraint.validate(data):\n                    errors.append(", "C02.R9", "format#1")
+    mb.add_text("vc-inner-from-i", P, "            for j in range(i + 1, len(constraints)):", "            for j in range(i, len(constraints)):", "C02.R9", "range:inner")
+    mb.add_text("vc-message-dropped", P, "                    errors.append(format_error(constraint.error, data))", "                    format_error(constraint.error, data)", "C02.R9", "format-kept#1")
+    mb.add_text("carry-and", P, "            raise ValidationError(errors, children_errors or {})", "            raise ValidationError(errors, children_errors and {})", "C02.R9", "carry:children_errors")
+    mb.add_text("carry-and-object", P, "        elif field_errors or errors:\n            raise ValidationError(errors or [], field_errors or {})", "        elif field_errors or errors:\n            raise ValidationError(errors and [], field_errors or {})", "C02.R9", "carry:errors")
+    mb.add_text("neg-vc-simple-loop", P, "    for i in range(len(constraints)):\n        constraint: Constraint = constraints[i]\n        if not constraint.validate(data):\n            errors: List[str] = [format_error(constraint.error, data)]\n            for j in range(i + 1, len(constraints)):\n                constraint = constraints[j]\n                if not constraint.validate(data):\n                    errors.append(format_error(constraint.error, data))\n            raise ValidationError(errors, children_errors or {})\n",
+                "    errors: List[str] = []\n    for constraint in constraints:\n        if not constraint.validate(data):\n            errors.append(format_error(constraint.error, data))\n    if errors:\n        raise ValidationError(errors, children_errors or {})\n", negative=True)
     mb.add_text("flattened-fbd-polarity", P, "                    if not flattened_field.fall_back_on_default:", "                    if flattened_field.fall_back_on_default:", "C02.R7", "ObjectMethod:aggregate")
     mb.add_text("pattern-children-dropped", P, "                    if not pattern_field.fall_back_on_default:\n                        errors = extend_errors(errors, err.messages)\n                        field_errors = update_children_errors(\n                            field_errors, err.children\n                        )", "                    if not pattern_field.fall_back_on_default:\n                        errors = extend_errors(errors, err.messages)", "C02.R7", "ObjectMethod:aggregate:halves")
     mb.add_text("optout-polarity", P, "                    if field.required or not field.fall_back_on_default:\n                        field_errors = set_child_error(field_errors, field.alias, err)\n            elif field.required:\n                field_errors = set_child_error(\n                    field_errors, field.alias, ValidationError(self.missing)\n                )\n        has_discriminator", "                    if field.required or field.fall_back_on_default:\n                        field_errors = set_child_error(field_errors, field.alias, err)\n            elif field.required:\n                field_errors = set_child_error(\n                    field_errors, field.alias, ValidationError(self.missing)\n                )\n        has_discriminator", "C02.R7", "SimpleObjectMethod:child")
